@@ -197,6 +197,12 @@ def check(ctx: Ctx):
         r07_1(ctx)
     if C.want(ctx, 'R07.2') or C.want(ctx, 'R07.3'):
         r07_2_3(ctx)
+    if C.want(ctx, 'R07.5'):
+        ctx.rule('R07.5', 'the image is a function of x and the configuration alone: on every path of GetImage no '
+                          'attribute written by queries is read before it is re-established (= R17.3 for the forward '
+                          'query), re-run here')
+        from . import c17
+        c17.r17_3(ctx, only={'GetImage'})
     if C.want(ctx, 'R07.4'):
         ctx.rule('R07.4', 'every image lies inside the box: cube bound (R05.2) and affine map (R05.3), re-run here')
         evo.rule_cube_bound(ctx, 'R07.4')
